@@ -133,10 +133,21 @@ def plan_msm(tier, shard, nshards):
 
 def o_other(case):
     p = bytes.fromhex(case["payload"])
+    from pyrtcm import RTCMMessage
+
+    def shown(lm):
+        m = RTCMMessage(payload=p, labelmsm=lm)
+        return {"str()": str(m), "repr()": repr(m), "serialize()": bytes(m.serialize()), "identity": m.identity, "payload": bytes(m.payload), "ismsm": m.ismsm}
+
     r1 = variants(p, 1)
+    s1 = shown(1)
     for lm in (2, 0, True):
         if variants(p, lm) != r1:
             raise Fail("non-msm-affected", f"{case.get('ident')}: labelmsm={lm!r} changes a non-MSM message")
+        sl = shown(lm)
+        diff = [k for k in s1 if s1[k] != sl[k]]
+        if diff:
+            raise Fail("non-msm-affected", f"{case.get('ident')}: labelmsm={lm!r} changes {diff} of a non-MSM message ({str(sl[diff[0]])[:80]} vs {str(s1[diff[0]])[:80]})")
     return Res(nontrivial=len(r1) > 8, classes=["defined" if case.get("ident") else "stub"], evals=12)
 
 
